@@ -62,6 +62,9 @@ struct csink {
     int counting;
     size_t maxper;      /* accept at most this many octets per call (0: all) */
     unsigned calls;
+    unsigned hiccup_at; /* > 0: the hiccup_at-th call (1-based) moves nothing and reports hiccup_code (0, -EAGAIN, -EINTR) */
+    int hiccup_code;
+    unsigned hiccups;
 };
 
 static ssize_t
@@ -69,6 +72,10 @@ csink_chunk(void *drv, const void *p, size_t n)
 {
     struct csink *s = drv;
     s->calls++;
+    if (s->hiccup_at && s->calls == s->hiccup_at) {
+        s->hiccups++;
+        return s->hiccup_code;
+    }
     if (s->counting) {
         s->counted += n;
         return (ssize_t)n;
@@ -99,7 +106,16 @@ mk_sink(Sink *snk, struct csink *s, int style)
     s->buf = sinkmem;
     if (style == 2)
         s->maxper = 3;
-    if (style == 1)
+    if (style >= 3) {
+        /* styles 3 (chunk) and 4 (octet): a driver that has to be asked again once - at its first, second or third
+         * call it moves nothing and says 0, -EAGAIN or -EINTR */
+        static unsigned hrot;
+        static const int codes[3] = { 0, -EAGAIN, -EINTR };
+        s->hiccup_at = 1 + hrot % 3;
+        s->hiccup_code = codes[(hrot / 3) % 3];
+        hrot++;
+    }
+    if (style == 1 || style == 4)
         octet_sink_init(snk, csink_octet, s);
     else
         chunk_sink_init(snk, csink_chunk, s);
@@ -217,6 +233,11 @@ check_sink(const char *key, const char *ctx, ssize_t rc, const struct csink *cs,
             vh_fail("too-long-accepted", key, "%s: rc=%zd, %zu octets emitted", ctx, rc, cs->n);
         return;
     }
+    if (cs->hiccups) {
+        VH_COUNT("encoder: sink that had to be asked again once");
+        if (rc < 0)
+            return; /* the interruption was handed to the caller: nothing was emitted as far as the caller knows */
+    }
     VH_COUNT("encoder: frame emitted to sink");
     if (rc != (ssize_t)(pn + len))
         vh_fail("total", key, "%s: rc=%zd expected %zu", ctx, rc, pn + len);
@@ -319,6 +340,8 @@ enc_case(int k, int e, size_t len, size_t consumed, size_t extra, size_t freesp,
             check_sink(key, ctx, rc, &cs, k, copy + consumed, len, valid);
         }
         size_t expoff = consumed + ((is_n && valid) ? len : 0);
+        if (cs.hiccups && rc < 0)
+            expoff = b.offset; /* given up after an interrupted sink call: where the read mark ends up is not judged */
         if (b.offset != expoff || b.used != consumed + unread || b.size != size || b.data != mem)
             vh_fail("buffer-advance", key, "%s: buffer offset=%zu used=%zu, expected offset=%zu used=%zu", ctx,
                     b.offset, b.used, expoff, consumed + unread);
@@ -409,6 +432,11 @@ u_enc(uint64_t idx, void *arg)
             VH_CASE4(k, e, len, 0);
             enc_case(k, e, len, len % 5, (len / 5) % 3, (len / 3) % 4, (int)(len % 3));
             enc_case(k, e, len, 0, 0, 0, (int)((len + 1) % 3));
+            if (len <= 300) {
+                vh_arena_reset();
+                enc_case(k, e, len, len % 3, 0, 1, 3 + (int)(len % 2));
+                n++;
+            }
             n += 2;
             if (vh_tier)
                 for (size_t lay = 0; lay < 12; lay++) {
